@@ -89,9 +89,43 @@ def run(ctx):
             samples.append(line)
     if p2.returncode != 0 or n != len(pred) or n == 0:
         ties.append({"what": "shard correspondence run incomplete", "detail": "%d of %d cases, rc=%d" % (n, len(pred), p2.returncode)})
-    cov = {"evaluations": n, "distinct_nontrivial": nontriv,
-           "rule": "boundary and random 64-bit hash pairs (0, 1, 2^63, 2^64-1, pre-images of shard boundaries +-1, equal primary/secondary images incl. the last shard, equal hashes) x shard counts 0..70, 128, 255..257, 1024, 4096, 65537; observed: temp dir offered, directory a fresh put lands in, lookup/touch/overwrite of an entry planted in the secondary candidate, invisibility of a third shard. Non-trivial = colliding images, an image within 1 of a shard boundary, or n < 2; distinct by (hash, sec, n).",
-           "samples": samples or [next(iter(p2.stdout.split("\n")), "")], "traces_validated_against_impl": n}
+    # probe order: the primary candidate is looked up first, whatever the handle's load estimates
+    # say (they only choose where a NEW entry goes).  Copies planted in both candidate shards; the
+    # same handle first publishes other keys with the same hashes (raising its estimate of the
+    # primary shard), then looks the key up: it must read the primary copy, and touch must mark it.
+    from . import scenario as S, gen as G
+    pcases = []
+    for nsh in (2, 3, 4, 16):
+        for hs in ((7, 9), (1 << 63, 1 << 63), (12345678901234567, 98765432109876543)):
+            w = ("sharded", nsh, 100 * nsh)
+            key = ("kk", hs[0], hs[1])
+            for fillers in (0, 1, 3):
+                for look in ("sget", "get"):
+                    L = G.header(w, (), "none") + [G.plant(G.key_path(w, "w", key, 0), "PRIMARY", mtime=G.T0 + 9, atime=G.T0),
+                                                   G.plant(G.key_path(w, "w", key, 1), "SECONDARY", mtime=G.T0 + 9, atime=G.T0)]
+                    for i in range(fillers):
+                        L += [G.NOFIRE, G.op(0, "sput" if look == "sget" else "put", ("filler%d" % i, hs[0], hs[1]), "F", 1)]
+                    L += [G.NOFIRE, G.op(0, look, key), G.NOFIRE, G.op(0, "stouch" if look == "sget" else "touch", key), "snap"]
+                    pcases.append(({"shards": nsh, "hashes": hs, "fillers": fillers, "lookup": look}, L))
+    pres = S.run_many(pcases)
+    pagree = 0
+    for desc, lines, impl, model, diffs in pres:
+        if diffs:
+            ties.append({"what": "model and implementation disagree on probe order", "case": str(desc), "detail": diffs[:3]})
+        else:
+            pagree += 1
+        if impl is None:
+            continue
+        nontriv += 1
+        stn = desc["fillers"] + 1
+        r = impl.results.get(stn)
+        if r and not r[1].startswith("OkSome content=PRIMARY"):
+            violations.append({"what": "after %d writes of other keys with the same hashes through the same handle, a lookup reads %s: the primary candidate was not probed first" % (desc["fillers"], r[1][:40]),
+                               "classification": {"kind": "probe-order", "api": desc["lookup"]},
+                               "replay": {"kind": "input", "scenario": lines, "case": str(desc)}})
+    cov = {"evaluations": n + len(pres), "distinct_nontrivial": nontriv, "probe_order_cases": len(pres),
+           "rule": "boundary and random 64-bit hash pairs (0, 1, 2^63, 2^64-1, pre-images of shard boundaries +-1, equal primary/secondary images incl. the last shard, equal hashes) x shard counts 0..70, 128, 255..257, 1024, 4096, 65537; observed: temp dir offered, directory a fresh put lands in, lookup/touch/overwrite of an entry planted in the secondary candidate, invisibility of a third shard; plus probe order (copies in both candidate shards, lookups and touches through a handle whose load estimates were raised by earlier writes). Non-trivial = colliding images, an image within 1 of a shard boundary, or n < 2; distinct by (hash, sec, n).",
+           "samples": samples or [next(iter(p2.stdout.split("\n")), "")], "traces_validated_against_impl": n + pagree}
     if not ctx.quick():
         rc, o = C.coqchk(PROPS)
         cov["coqchk"] = o[-600:]
